@@ -14,6 +14,7 @@
 -/
 import SA.Base.Util
 import SA.Gen.C14
+import SA.Model.CarrierClose
 namespace SA.Pipe
 
 inductive End | down | up
@@ -245,6 +246,10 @@ def handle (toks : List String) : String :=
     connection (two PipeData calls per connection: client listener and server channel hop) and whether
     a dead session is serviced in a busy loop -/
 def handleLife (toks : List String) : String :=
+  -- a session that ends while its carrier write is blocked: SA.Model.CarrierClose
+  match CarrierClose.lifeBlocked toks with
+  | some r => r
+  | none =>
   match toks with
   | [carrier, n, "badpeer", ending] =>
       -- refused sessions: the branch of AcceptConnection taken after a failed handshake only logs and closes, so a
